@@ -108,8 +108,17 @@ class Universe:
         self._labels: dict[int, str] = {}
         for i, s in enumerate(spec["nodes"]):
             self._put(f"n{i}", M.Node(name=s["name"]))
+        arr = spec.get("param_arrays")  # caller-owned NumPy arrays as element parameters
+        if arr:
+            import numpy as np
+
+            P = lambda x: np.array(float(x))  # noqa: E731
+            TR = (lambda x: np.array([float(x)])) if arr == "1d" else P
+        else:
+            P = TR = lambda x: x  # noqa: E731
         for i, s in enumerate(spec["links"]):
-            args = (s["N"], s["lam"], s["L"], s["rho_max"], s["rho_crit"], s["v_free"], s["a"])
+            args = (s["N"], s["lam"], P(s["L"]), P(s["rho_max"]), P(s["rho_crit"]), P(s["v_free"]), P(s["a"]))
+            s = dict(s, turnrate=TR(s["turnrate"]))
             if s["cls"] == "LinkWithVsl":
                 o = M.LinkWithVsl(
                     *args,
@@ -124,7 +133,7 @@ class Universe:
         for i, s in enumerate(spec["origins"]):
             cls = getattr(M, s["cls"])
             if s["cls"] in RAMP_CLASSES:
-                o = cls(s["C"], s["type"], name=s["name"])
+                o = cls(P(s["C"]), s["type"], name=s["name"])
             else:
                 o = cls(name=s["name"])
             self._put(f"o{i}", o)
